@@ -513,7 +513,7 @@ func checkValidateBeforeEffect(c *Ctx, r *Report, eff *effects, f *ssa.Function,
 			for i := 0; i < 2; i++ {
 				abs, pres := b.Succs[i], b.Succs[1-i]
 				// absent edge: no effect reachable, every reachable return is a 4xx problem
-				reach := reachableFrom(abs, nil, nil, nil)
+				reach := threadedReach(b, abs)
 				clean := true
 				for _, e := range effs {
 					if reach[e.Block()] {
@@ -546,7 +546,7 @@ func checkValidateBeforeEffect(c *Ctx, r *Report, eff *effects, f *ssa.Function,
 				// present edge dominates every effect
 				dom := true
 				for _, e := range effs {
-					if !edgeDominates(b, pres, e.Block()) {
+					if !(edgeDominates(b, pres, e.Block()) || (e.Block() != b && b.Dominates(e.Block()) && !reach[e.Block()])) {
 						dom = false
 						why = fmt.Sprintf("effect at %s (%s) is reached without passing the %s test: a request naming an unknown %s still debits/refunds or changes records", posOf(c, e), shortInstr(e), gk.name, gk.name)
 						at = e
